@@ -1,1 +1,101 @@
-// placeholder
+//! Spherical geodesy (R = 6371 km) and the NL function in closed form.
+use std::f64::consts::PI;
+
+pub const R_M: f64 = 6_371_000.0;
+pub const NM: f64 = 1852.0;
+
+pub fn dist_m(lat1: f64, lon1: f64, lat2: f64, lon2: f64) -> f64 {
+    let (p1, p2) = (lat1.to_radians(), lat2.to_radians());
+    let dp = p2 - p1;
+    let dl = (lon2 - lon1).to_radians();
+    let a = (dp / 2.0).sin().powi(2) + p1.cos() * p2.cos() * (dl / 2.0).sin().powi(2);
+    2.0 * R_M * a.sqrt().min(1.0).asin()
+}
+
+/// destination from (lat, lon) along initial bearing `brg` (deg) for `d` metres; lon wrapped to [-180,180)
+pub fn dest(lat: f64, lon: f64, brg: f64, d: f64) -> (f64, f64) {
+    let (p, l, b) = (lat.to_radians(), lon.to_radians(), brg.to_radians());
+    let ad = d / R_M;
+    let sp2 = (p.sin() * ad.cos() + p.cos() * ad.sin() * b.cos()).clamp(-1.0, 1.0);
+    let p2 = sp2.asin();
+    let l2 = l + (b.sin() * ad.sin() * p.cos()).atan2(ad.cos() - p.sin() * sp2);
+    (p2.to_degrees(), wrap180(l2.to_degrees()))
+}
+
+/// final bearing when arriving at the destination (for dead reckoning along a great circle)
+pub fn bearing(lat1: f64, lon1: f64, lat2: f64, lon2: f64) -> f64 {
+    let (p1, p2) = (lat1.to_radians(), lat2.to_radians());
+    let dl = (lon2 - lon1).to_radians();
+    let y = dl.sin() * p2.cos();
+    let x = p1.cos() * p2.sin() - p1.sin() * p2.cos() * dl.cos();
+    (y.atan2(x).to_degrees() + 360.0) % 360.0
+}
+
+pub fn wrap180(mut lon: f64) -> f64 {
+    lon = (lon + 180.0).rem_euclid(360.0) - 180.0;
+    if lon >= 180.0 {
+        lon -= 360.0
+    }
+    lon
+}
+
+/// difference of two longitudes modulo 360, in (-180, 180]
+pub fn dlon(a: f64, b: f64) -> f64 {
+    let d = (a - b).rem_euclid(360.0);
+    if d > 180.0 {
+        d - 360.0
+    } else {
+        d
+    }
+}
+
+/// NL(lat) from DO-260B A.1.7.2 d, closed form (NZ = 15)
+pub fn nl(lat: f64) -> i32 {
+    let a = lat.abs();
+    if a == 0.0 {
+        return 59;
+    }
+    if a == 87.0 {
+        return 2;
+    }
+    if a > 87.0 {
+        return 1;
+    }
+    let nz = 15.0;
+    let num = 1.0 - (PI / (2.0 * nz)).cos();
+    let den = (PI / 180.0 * a).cos().powi(2);
+    (2.0 * PI / (1.0 - num / den).acos()).floor() as i32
+}
+
+/// latitude (deg, positive) at which NL drops from n to n-1, n = 2..=59
+pub fn nl_transition(n: i32) -> f64 {
+    let nz = 15.0;
+    let num = 1.0 - (PI / (2.0 * nz)).cos();
+    let den = 1.0 - (2.0 * PI / n as f64).cos();
+    (num / den).sqrt().acos().to_degrees()
+}
+
+pub fn transitions() -> Vec<f64> {
+    (2..=59).map(nl_transition).collect()
+}
+
+/// distance (deg) from |lat| to the nearest NL transition latitude
+pub fn dist_to_transition(lat: f64, tr: &[f64]) -> f64 {
+    let a = lat.abs();
+    tr.iter().map(|t| (t - a).abs()).fold(f64::INFINITY, f64::min)
+}
+
+#[cfg(test)]
+mod t {
+    use super::*;
+    #[test]
+    fn nl_basics() {
+        assert_eq!(nl(0.0), 59);
+        assert_eq!(nl(10.0), 59);
+        assert_eq!(nl(10.5), 58);
+        assert_eq!(nl(86.9), 2);
+        assert_eq!(nl(87.5), 1);
+        assert!((nl_transition(59) - 10.47047130).abs() < 1e-7);
+        assert!((nl_transition(2) - 87.0).abs() < 1e-9);
+    }
+}
